@@ -204,7 +204,7 @@ def unit_cases(unit, seed, tier):
         # the first one always has at least one zero default (the sparse representation is then kept)
         picks = [combos[(k + si) % len(combos)], combos[(k * 7 + 3 * si + 5) % len(combos)]]
         if tier == "thorough":
-            picks += [combos[(k * 3 + si + 1) % len(combos)], (ds[0], ds[0])]
+            picks += [combos[(k * 3 + si + 1) % len(combos)]]
         for n, (da, db) in enumerate(picks):
             dtype = "float32" if (sr != "Bool" and (k + n) % 5 == 0) else "float64"
             yield {"fn": "rep", "sr": sr, "dtype": "bool" if sr == "Bool" else dtype,
@@ -368,7 +368,7 @@ def run_bounded(ctx: Ctx) -> Report:
         function="Semiring.add/mul/sub on PatternedTensor vs Tensor (Real, Log, Viterbi, Bool)",
         bound=f"all ordered pairs of patterns_for_shape patterns with a common index type over every shape with numel <= {numel}, "
               f"ndim <= 3 ({info['compatible (well-typed) pairs']} of {info['pattern pairs']} pairs over {info['shapes']} shapes) x 4 semirings x "
-              f"{'4' if ctx.thorough else '2'} default combinations from {{zero, one, inf, finite}}^2 x {{add, mul, sub}}; data on the carrier incl. zero and inf; "
+              f"{'3' if ctx.thorough else '2'} default combinations from {{zero, one, inf, finite}}^2 x {{add, mul, sub}}; data on the carrier incl. zero and inf; "
               "float64 (every 5th float32)",
         cases=evals, distinct_nontrivial=len(dig) * len(OPS),
         rule="pairs enumerated exhaustively, defaults walk through all combinations as the pair index varies, data seeded; one case = "
